@@ -11,4 +11,5 @@ def run(ctx, rep):
     fillrules.check_divide(ctx, rep, rules=('S-divide', 'I-private-bump'))
     segrules.check_clamp(ctx, rep)
     segrules.check_ranges(ctx, rep)
+    segrules.check_algebra(ctx, rep)
     segrules.check_bbox_symmetry(ctx, rep)
